@@ -114,6 +114,9 @@ def main():
             o = outm.get(cid, "missing")
             if not (o == "ok" or o == "na" or o.startswith("ok ") or o.startswith("na ")):
                 oracle_fails.append((body, tag + o))
+    if P.get("py_oracle"):
+        by_case = {l.partition(" ")[2]: impl_out.get(l.split(" ", 1)[0], "missing") for l in run_cases}
+        oracle_fails += P["py_oracle"](by_case)
     # a hard abort / panic of the implementation is a concrete observation in its own right
     for l in run_cases:
         cid, _, body = l.partition(" ")
